@@ -104,6 +104,7 @@ type Machine struct {
 	decisions []Decision
 	model     Model
 	modelValid bool
+	lastUnsat  bool // the last ensureModel query proved the path condition unsatisfiable
 	ndvals    []ndVal
 	cur       *PathResult
 	entry     *EntrySpec
@@ -299,6 +300,7 @@ func (m *Machine) ensureModel() bool {
 		return true
 	}
 	res, model := m.solver.Check(nil)
+	m.lastUnsat = res == Unsat
 	if res == Sat {
 		m.model = model
 		m.modelValid = true
@@ -314,6 +316,23 @@ func (m *Machine) check(c *Term, label, msg string) {
 		if c.k == 1 {
 			m.ex.noteObligation(true, true)
 			return
+		}
+		// a concretely false assertion is a violation only if the path is feasible: after
+		// an inconclusive branch/assume query the path condition has to be re-decided
+		if !m.modelValid {
+			res, model := m.solver.Check(nil)
+			switch res {
+			case Sat:
+				m.model, m.modelValid = model, true
+			case Unsat:
+				m.pathOutcome("infeasible", "")
+				panic(pathAbort{})
+			default:
+				m.ex.noteObligation(false, false)
+				m.ex.addUnknownObligation(label)
+				m.pathOutcome("undecided", label)
+				panic(pathAbort{})
+			}
 		}
 		m.ex.noteObligation(true, true)
 		m.recordViolation(label, msg, m.model)
@@ -632,6 +651,10 @@ func (p *MachinePool) get(i int, ex *Explorer) (*Machine, string) {
 			}
 			m.solver = s
 		}
+		m.solver.SetTimeout(ex.cfg.QueryTimeout)
+		if m.xsolv != nil {
+			m.xsolv.SetTimeout(ex.cfg.QueryTimeout)
+		}
 		return m, ""
 	}
 	m := NewMachine(p.prog)
@@ -645,6 +668,10 @@ func (p *MachinePool) get(i int, ex *Explorer) (*Machine, string) {
 		if err != nil {
 			m.xsolv = nil
 		}
+	}
+	m.solver.SetTimeout(ex.cfg.QueryTimeout)
+	if m.xsolv != nil {
+		m.xsolv.SetTimeout(ex.cfg.QueryTimeout)
 	}
 	m.ex = ex
 	t0 := time.Now()
@@ -865,7 +892,9 @@ func (m *Machine) panicViolation(msg string) {
 		return
 	}
 	if !m.ensureModel() {
-		m.ex.addUnknownObligation("panic")
+		if !m.lastUnsat {
+			m.ex.addUnknownObligation("panic")
+		}
 		return
 	}
 	m.ex.noteObligation(true, false)
